@@ -47,6 +47,16 @@ NewEntries(pre, post) ==
 
 FeedersOfTok(c, t) == {f \in FEEDERS : c.fd[f].tok = t}
 
+\* threshold boundary reached by the accepted reports of a round: the best-backed (source round, value) has exactly
+\* floor(2T/3) or floor(2T/3)+1 power, the reported power exceeds 2/3 and somebody reported something else
+Boundary(subs, c, f, k) ==
+  LET R == SubsOf(subs, f, k)
+      T3 == (2 * Total(c)) \div 3
+      backing(s) == PowerOf(c, {x.v : x \in {y \in R : y.d = s.d /\ y.p = s.p}})
+  IN /\ R # {} /\ Exceeds(PowerOf(c, {s.v : s \in R}), Total(c))
+     /\ \E s \in R : backing(s) \in {T3, T3 + 1} /\ \A x \in R : backing(x) <= backing(s)
+     /\ \E s, x \in R : s.d = x.d /\ s.p # x.p
+
 DoTx(msgs) ==
   /\ Len(hist) < MAXOPS /\ ntx < MAXTX /\ S.h <= MAXH /\ ~last.halt
   /\ LET rs == DeliverTx(S, msgs)
@@ -58,6 +68,7 @@ DoTx(msgs) ==
         /\ hist' = Append(hist, [ev |-> "Tx", a |-> [msgs |-> msgs],
                                   \* notes for the behaviour selection of tools/fam_oracle.py (ignored by the harness)
                                   n |-> (IF NewEntries(S, rs.st) # {} THEN {"fin"} ELSE {}) \cup
+                                        (IF rs.err = "" /\ Boundary(g2.subs, [S.c EXCEPT !.pw = S.pw], msgs[1].f, RoundIdx(S.c, msgs[1].f, S.h)) THEN {"bnd"} ELSE {}) \cup
                                         (IF rs.err # "" /\ Mem(rs.st) # Mem(S) THEN {"failmem"} ELSE {}) \cup
                                         (IF Stored(rs.st) # Stored(rt.st) \/ (rs.err = "") # (rt.err = "") THEN {"div"} ELSE {})])
         /\ last' = [ev |-> "Tx", okS |-> rs.err = "", okT |-> rt.err = "",
@@ -112,7 +123,7 @@ NextNonce(nn, v, f) == IF <<v, f>> \in DOMAIN nn THEN nn[<<v, f>>] + 1 ELSE 1
 Nonces(nn, v, f) == {NextNonce(nn, v, f)} \cup (IF BADNONCE THEN {NextNonce(nn, v, f) + 1} ELSE {})
 
 MsgsFor(nn, P) ==
-  UNION {{[v |-> vf[1], f |-> vf[2], base |-> b, nonce |-> n, ps |-> ps] : b \in Bases(vf[2]), n \in Nonces(nn, vf[1], vf[2]), ps \in P} : vf \in VALS \X FEEDERS}
+  UNION {{[v |-> vf[1], f |-> vf[2], base |-> b, nonce |-> n, ps |-> ps] : b \in Bases(vf[2]), n \in Nonces(nn, vf[1], vf[2]), ps \in P} : vf \in (DOMAIN S.c.pw) \X FEEDERS}
 AfterFirst(m) == IF <<m.v, m.f>> \in DOMAIN S.nonce THEN [S.nonce EXCEPT ![<<m.v, m.f>>] = m.nonce] ELSE S.nonce
 StaleBase(f) == IF f \in DOMAIN S.rounds THEN S.rounds[f].base + 1 ELSE 1
 SecondFor(m) ==
@@ -131,7 +142,14 @@ Next ==
 
 Spec == Init /\ [][Next]_vars
 
-View == <<S, T, G, last, nfail, nrestart, ntx, bp, nupd>>
+\* hist itself is hidden, but its LENGTH bounds the behaviours (MAXOPS) and therefore must be part of the
+\* fingerprint: otherwise a state first reached by a LONGER history loses successors that a shorter history would
+\* still have, and the reachable set depends on the exploration order (only strict BFS = one worker explores
+\* every state first along a shortest history).  With Len(hist) in the VIEW the exhaustive runs are order-independent.
+\* The exhaustive configurations use a MAXOPS that cannot bind (every event is bounded by a state component:
+\* MAXH blocks, MAXTX txs per block, MAXUPD updates), then the length adds nothing and is left out.
+MaxEvents == 1 + MAXH * (MAXTX + 1) + MAXUPD
+View == <<S, T, G, last, nfail, nrestart, ntx, bp, nupd, IF MAXOPS <= MaxEvents THEN Len(hist) ELSE 0>>
 
 \* ----- invariants: C12 on the node S -----
 HH == S.h - 1
